@@ -28,6 +28,7 @@ func init() {
 		"shared_argument_sessions:sequential", "shared_argument_sessions:built-first", "shared_argument_sessions:interleaved",
 		"shared_argument_sessions_by_order_of_sizes:increasing", "shared_argument_sessions_by_order_of_sizes:decreasing", "shared_argument_sessions_by_order_of_sizes:alternating", "shared_argument_sessions_by_order_of_sizes:seeded",
 		"shared_argument_iterators:MultisetCombinations", "shared_argument_iterators:MultisetPermutations", "shared_argument_iterators:Product", "shared_argument_iterators:RestrictedPrefixProduct",
+		"predicate_calls_that_also_appended_a_candidate_to_the_argument:RestrictedPrefixProduct", "predicate_calls_that_also_appended_a_candidate_to_the_argument:RestrictedPrefixPermutations", "predicate_calls_that_also_appended_a_candidate_to_the_argument:PermutationsByPattern",
 		"sessions:built-first", "sessions:interleaved",
 		// parameter magnitudes (huge.go)
 		"huge_family_prefix_cases_with_cardinality_a_multiple_of_2^64:Product", "huge_family_prefix_cases_with_cardinality_mod_2^64_below_the_prefix_length:Product",
@@ -92,15 +93,16 @@ func init() {
 // callback monitor
 
 type cbMon struct {
-	limit    int64 // calls allowed within one Next
-	inNext   int64
-	total    int64
-	rejected int64
-	maxNext  int64
-	illegal  string
-	runaway  bool
-	oddArgs  int64 // legal but unusual (less(i,j) with i >= j)
-	phase    *string
+	limit      int64 // calls allowed within one Next
+	inNext     int64
+	total      int64
+	rejected   int64
+	maxNext    int64
+	illegal    string
+	runaway    bool
+	lookAheads int64 // calls in which the predicate also wrote behind its argument
+	oddArgs    int64 // legal but unusual (less(i,j) with i >= j)
+	phase      *string
 }
 
 type runawaySentinel struct{ calls int64 }
@@ -138,6 +140,7 @@ type pred struct {
 	name   string
 	seeded bool
 	f      func(p []int) bool // pure
+	after  func(p []int)      // what the predicate does besides answering when the LIBRARY calls it (never run on reference data)
 }
 
 func mix(h uint64) uint64 {
@@ -180,6 +183,28 @@ func fixedPreds(size int) []pred {
 		{name: "full-length-last-even", f: func(p []int) bool { return len(p) < size || len(p) == 0 || p[len(p)-1]%2 == 0 }},
 		{name: "first-is-0", f: func(p []int) bool { return len(p) == 0 || p[0] == 0 }},
 	}
+}
+
+// lookAhead: the same predicate written the way look-ahead predicates are often written in Go: it tries a candidate for
+// the next position with append(a, v), which writes v into the room behind a when there is room.  Its answer is the
+// answer of p (it is still a function of the prefix alone) and a[:len(a)] is never written.
+func lookAhead(p pred) pred {
+	return pred{name: p.name + "+tries-a-next-value-with-append(argument,v)", seeded: p.seeded, f: p.f, after: func(a []int) {
+		h := uint64(len(a))
+		for _, v := range a {
+			h = mix(h*31 + uint64(v))
+		}
+		b := append(a, 1+int(h%3))
+		_ = b
+	}}
+}
+
+func withLookAhead(ps []pred) []pred {
+	out := append([]pred{}, ps...)
+	for _, p := range ps {
+		out = append(out, lookAhead(p))
+	}
+	return out
 }
 
 func seededPreds(c *engine.Ctx, stream string, n, count int) []pred {
@@ -603,6 +628,9 @@ func (r *runner) judge(k *kase, tr *trace, pi *engine.PanicInfo) {
 	}
 
 	c.Obs("further_next_calls_after_exhaustion", tr.further)
+	if k.mon != nil && k.mon.lookAheads > 0 {
+		c.Obs("predicate_calls_that_also_appended_a_candidate_to_the_argument:"+k.api, int(k.mon.lookAheads))
+	}
 	if k.prefixOnly {
 		c.Obs("prefix_only_cases:"+k.api, 1)
 	}
@@ -964,6 +992,10 @@ func wrap(m *cbMon, p pred, legal func(a []int) string) func([]int) bool {
 			}
 		}
 		ok := p.f(a)
+		if p.after != nil {
+			p.after(a)
+			m.lookAheads++
+		}
 		if !ok {
 			m.rejected++
 		}
@@ -1286,11 +1318,14 @@ func run(c *engine.Ctx) {
 			r := newRunner(c)
 			seeded := seededPreds(c, "RestrictedPrefixProduct", n, c.Pick(3, 8))
 			vectorsOfSum(n, func(v []int) {
-				for _, p := range fixedPreds(len(v))[:5] {
+				for _, p := range withLookAhead(fixedPreds(len(v))[:5]) {
 					r.run(restrictedProductCase(v, p))
 				}
-				for _, p := range seeded {
+				for i, p := range seeded {
 					r.run(restrictedProductCase(v, p))
+					if i == 0 {
+						r.run(restrictedProductCase(v, lookAhead(p)))
+					}
 				}
 			})
 		})
@@ -1308,7 +1343,7 @@ func run(c *engine.Ctx) {
 		case n == 9:
 			nSeeded, per = 25, 1
 		}
-		fp := fixedPreds(n)
+		fp := withLookAhead(fixedPreds(n))
 		total := len(fp) + nSeeded
 		for _, api := range []string{"RestrictedPrefixPermutations", "PermutationsByPattern"} {
 			api := api
